@@ -139,10 +139,11 @@ Definition vars_of (b : list op) : list var := flat_map vars_op b.
 Definition memb (x : var) (l : list var) : bool := existsb (Nat.eqb x) l.
 Definition maxvar (b : list op) : nat := fold_right Nat.max 0%nat (vars_of b).
 
-(* xdsl.traits.is_side_effect_free: arith/memref.dim/memref.subview declare no memory effect,
-   memref.alloc allocates, affine.min declares nothing (unknown), scf.for is recursive. *)
+(* xdsl.traits.is_side_effect_free (xDSL 0.70): arith.constant/addi/subi/muli are Pure, arith.divui,
+   memref.dim and memref.subview declare NoMemoryEffect, memref.alloc allocates, affine.min and
+   arith.remui declare nothing (unknown effects => not free), scf.for is recursive. *)
 Definition effect_free_p (p : pexpr) : bool :=
-  match p with PAlloc _ | PMin _ => false | _ => true end.
+  match p with PAlloc _ | PMin _ | PBin BRemU _ _ => false | _ => true end.
 Fixpoint effect_free (o : op) : bool :=
   match o with
   | Def _ p => effect_free_p p
@@ -216,10 +217,15 @@ Definition merge_loops_no_nest_check := merge_loops_with false true.   (* before
 Definition merge_loops_no_neg_check := merge_loops_with true false.    (* before the repair of F15b *)
 
 (* ---------------------------------------------------------------- LoopHoistPureOperations *)
-(* `Pure() in op.traits or whitelisted (memref.alloc)`: arith ops are Pure; dim/subview only declare
-   NoMemoryEffect and affine.min declares nothing, so they are not moved by this pattern. *)
+(* `Pure() in op.traits or whitelisted (memref.alloc)`: arith.constant/addi/subi/muli are Pure; divui,
+   dim and subview only declare NoMemoryEffect, remui and affine.min declare nothing, so they are not
+   moved by this pattern. *)
 Definition hoistable_p (p : pexpr) : bool :=
-  match p with PConst _ | PBin _ _ _ | PAlloc _ => true | _ => false end.
+  match p with
+  | PConst _ | PAlloc _ => true
+  | PBin k _ _ => match k with BAdd | BSub | BMul => true | _ => false end
+  | _ => false
+  end.
 (* Applied at the loop `o`; `j` is the position of the matched op in its body.  `S` = definitions that
    dominate the loop (op results only: block arguments are not in a scope). *)
 Definition hoist (Sc : scope) (j : nat) (o : op) : option (list op) :=
@@ -290,6 +296,21 @@ Definition eval_repl (e : env) (r : repl) : Z :=
   | RMin _ c => c
   end.
 Definition repl_safe (r : repl) : bool := match r with RMin _ _ => false | _ => true end.
+
+(* Does MoveMemrefDims resolve some `memref.dim` inside a loop through an affine.min (class of the
+   known finding F22: `move_dim_affine_min`)? *)
+Fixpoint has_min_dim_op (Sout : scope) (in_loop : bool) (Sin : scope) (o : op) {struct o} : bool :=
+  match o with
+  | Def _ (PDim src idx) =>
+    in_loop &&
+    match cst_of (Sin ++ Sout) idx with
+    | Some iz => match resolve_dim 8 Sin Sout src iz with Some (RMin _ _) => true | _ => false end
+    | None => false
+    end
+  | Def _ _ | Eff _ _ => false
+  | For _ _ _ _ body => existsb (has_min_dim_op (Sin ++ Sout) true (defs_top body)) body
+  end.
+Definition prog_has_min_dim (b : list op) : bool := existsb (has_min_dim_op [] false (defs_top b)) b.
 
 (* ---------------------------------------------------------------- rules in context *)
 Inductive rule :=
